@@ -71,7 +71,7 @@ CHECKS = {
          "Group membership table written from UAX #44 in the harness; says nothing about whether the tables match a particular Unicode version. The derive path is covered by C02.",
          "DESIGN.md section 4, C16"),
  "C17": ("schedule exploration with shuttle (seeded random and PCT schedulers) over the real debugger source re-targeted onto a shim, driven by proptest-generated scenarios; oracle = breakpoint hits computed from a plain listener run",
-         "Exploration: ~4000 generated scenarios (quick) x 200 schedules each (~800k executions); event sequence, at-most-one-event-per-continue, silence while waiting, successful re-run and deadlock-freedom are asserted in every explored schedule.",
+         "Exploration: ~4000 generated scenarios (quick) x 200 schedules each (~800k executions); event sequence, at-most-one-event-per-continue, silence while waiting, successful re-run, active termination of the abandoned session, the breakpoint set after add/delete/add-all/delete-all and deadlock-freedom are asserted in every explored schedule.",
          "The shim's park() has no spurious wake-ups; liveness only as deadlock-freedom / step bound (150k steps) of explored schedules; re-runs use channel capacity >= 1. The debugger source is taken from the working tree by build.rs (only its import block is rewritten).",
          "DESIGN.md section 4, C17"),
  "C18": ("differential against a hand-written RFC 8259 recogniser over ABNF-generated documents, their one-edit neighbours, token soup and a near-miss catalogue",
